@@ -70,7 +70,7 @@ PROPS.update({
  "C06": {
   "level": "exploration", "design_ref": "DESIGN.md §5 P-C06",
   "technique": "deterministic simulation of full approve sessions (real drc.Main / doapprove.Main in a synctest bubble against the device node); configuration product hostname x marker x front end enumerated per sampled input; oracle on the device's command transcript",
-  "level_text": "For every sampled (A,B) with pending changes the product {drc, do-approve} x 4 hostname variants x {marker present, absent, partial, not configured} is run completely; a wrong or unmanaged device must receive no change/guard/save command and the run must fail with a diagnostic; marker not configured must behave like marker present. ASA and IOS in this tree (Linux / PAN-OS axes need their nodes).",
+  "level_text": "For every sampled (A,B) with pending changes the product {drc, do-approve} x 4 hostname variants x {marker present, absent, partial, not configured} is run completely; a wrong or unmanaged device must receive no change/guard/save command and the run must fail with a diagnostic; marker not configured must behave like marker present. ASA, IOS and Linux (hostname x /etc/issue marker) in this tree; the PAN-OS axes need its node.",
   "level_note": "Trusts the node's command classification (by protocol position and effect on the model state).",
   "rule": "case = cisco pair x 32 configurations; evaluations = sessions; non-trivial = reference run has a non-empty script; distinct = hash of texts",
   "quick": B(400, 40), "thorough": B(40000, 900),
@@ -80,7 +80,7 @@ PROPS.update({
   "level": "fault_enumeration", "design_ref": "DESIGN.md §5 P-C09",
   "technique": "deterministic simulation with fault injection: fault-free session fixes the dialogue positions, then every fault kind (stall beyond timeout, close, close after echo, error text, garbage, garbled echo, failed save, auth reject; plus legal warnings/latency) is injected at every position; oracles over device transcript, exit status, status file, history, run log, bounded liveness in simulated time",
   "level_text": "Per sampled scenario all dialogue positions x applicable fault kinds are enumerated (thorough: all; quick: a rotating third); after the fault no change or save command may reach the device, exit != 0, FAILED/DIFF, END: FAILED, tool ends within 5*timeout+10 s simulated; conversely OK only if every command was accepted and the save confirmed. Timeouts of 10-120 s cost microseconds (fake clock).",
-  "level_note": "ASA and IOS sessions in this tree; HTTP devices when their nodes exist. Error text at setup commands whose reply the tool does not inspect by design is not judged.",
+  "level_note": "ASA, IOS and Linux sessions in this tree; HTTP devices when their nodes exist. Error text at setup commands whose reply the tool does not inspect by design is not judged.",
   "rule": "evaluations = faulted sessions; non-trivial = base scenario with >=1 change command; distinct = hash(device, target, front, mode)",
   "quick": B(2000, 50), "thorough": B(100000, 1200),
   "real": REAL_LIVE, "stubs": STUB_LIVE, "assumptions": ASSUME_LIVE, "min_nontrivial": 20,
@@ -89,7 +89,7 @@ PROPS.update({
   "level": "fault_enumeration", "design_ref": "DESIGN.md §5 P-C11",
   "technique": "deterministic simulation with fault injection: compare sessions (drc -C, do-approve compare) under every interlock outcome and every fault kind at every dialogue position; transcript oracle + state hash of running/startup configuration before and after",
   "level_text": "Compare runs with non-empty differences, missing marker, unconfigured marker, wrong hostname, and all C09 fault kinds at all positions: the device must receive no change, guard or save command (only ASA 'terminal width' inside configure terminal) and its running and startup configuration must be byte-identical afterwards.",
-  "level_note": "ASA and IOS in this tree.",
+  "level_note": "ASA, IOS and Linux in this tree.",
   "rule": "evaluations = compare sessions; non-trivial = base compare reports differences; distinct = hash(device, target, front, interlock)",
   "quick": B(2000, 40), "thorough": B(100000, 900),
   "real": REAL_LIVE, "stubs": STUB_LIVE, "assumptions": ASSUME_LIVE, "min_nontrivial": 20,
@@ -107,7 +107,7 @@ PROPS.update({
   "level": "fault_enumeration", "design_ref": "DESIGN.md §5 P-C17",
   "technique": "deterministic simulation with fault injection: fresh random secret per run (alphabet needing URL/XML escaping), all fault kinds at all dialogue positions incl. rejected enable; byte scan of every file under basedir, stdout and stderr for the secret in plain, query-escaped, path-escaped and XML-escaped form",
   "level_text": "Every sink is scanned after every run (success and each fault kind x position, login positions always). The node never echoes input given at a password prompt and echoes input typed at a command prompt, like real devices.",
-  "level_note": "ASA and IOS (login password) in this tree; API key / session token sinks need the HTTP nodes.",
+  "level_note": "ASA, IOS and Linux (login password) in this tree; API key / session token sinks need the HTTP nodes.",
   "rule": "evaluations = sessions; non-trivial = every case (fresh secret); distinct = hash(secret, kind, front)",
   "quick": B(1500, 40), "thorough": B(60000, 900),
   "real": REAL_LIVE, "stubs": STUB_LIVE, "assumptions": ASSUME_LIVE, "min_nontrivial": 20,
@@ -180,6 +180,20 @@ PROPS.update({
   "rule": "evaluations = missing-approve verdicts (one per event); non-trivial = each history; distinct = hash of the event log",
   "quick": B(2500, 50), "thorough": B(100000, 1200),
   "real": REAL_LIVE + ["cmd/missing-approve (real binary)", "bzip2"], "stubs": STUB_LIVE, "assumptions": ASSUME_LIVE, "min_nontrivial": 50,
+ },
+})
+
+
+PROPS.update({
+ "C05": {
+  "level": "exploration", "design_ref": "DESIGN.md §5 P-C05",
+  "technique": "deterministic simulation of full approve sessions against an executable Linux node (kernel routing table, iptables ruleset loaded from the file the stub scp delivered, startup files); round trip target -> device -> iptables-save in kernel spelling -> compare",
+  "level_text": "Seeded search over (routes, ruleset) pairs; the real session runs in a bubble; afterwards static routes and ruleset (tables, chains, policies, ordered rules; the node's own parsed representation) must equal the target, the startup files must hold them, and a compare of the target with what the node prints in kernel spelling (tape-chosen variants: /32, -m proto, xmark, open port ranges, state order, protocol names, negated syn flags, counters) must be empty; 'unchanged' only for an equivalent device.",
+  "level_note": "Kernel spelling is limited to the variants the statement names plus the negated --tcp-flags form the suite documents.",
+  "rule": "case = (Linux device, target); non-trivial = plan reports a difference; distinct = hash of texts",
+  "quick": B(2500, 40), "thorough": B(200000, 900),
+  "real": ["pkg/drc, pkg/doapprove, pkg/device, pkg/linux, pkg/console, goexpect"], "stubs": ["ssh: in-process Linux node (/verif/sim/linuxdev)", "scp: shell stub delivering into the node's file system"],
+  "assumptions": ["the Linux node represents ip(8)/iptables-restore/iptables-save behaviour (trusted base)"], "min_nontrivial": 50,
  },
 })
 
